@@ -68,7 +68,7 @@ func (c *BlockFetcherClient[B]) FetchBlocks(ctx context.Context, blk Block, minT
 			// Multiple blocks can share the same timestamp, so we have not filled the validity window
 			// until we find and include the first block whose timestamp is strictly less than the minimum
 			// timestamp. This ensures we have a complete and verifiable validity window
-			if c.lastBlock.GetTimestamp() < minTimestamp.Load() {
+			if c.lastBlock.GetTimestamp() < minTimestamp.Load() || c.lastBlock.GetHeight() == 0 {
 				close(resultChan)
 				return
 			}
@@ -105,7 +105,7 @@ func (c *BlockFetcherClient[B]) FetchBlocks(ctx context.Context, blk Block, minT
 					return
 				case resultChan <- block:
 					c.lastBlock = block
-					if c.lastBlock.GetTimestamp() < minTimestamp.Load() {
+					if c.lastBlock.GetTimestamp() < minTimestamp.Load() || c.lastBlock.GetHeight() == 0 {
 						close(resultChan)
 						return
 					}
